@@ -211,3 +211,17 @@ PROPS["C15"] = {
         {"bin": "c15", "quick": {"cases": 0, "workers": 16, "budget": 400}, "thorough": {"cases": 0, "workers": 16, "budget": 2400}},
     ],
 }
+
+PROPS["C14"] = {
+    "level": "exploration",
+    "rule": "rapidcheck-generated: kind {read, write} x catalogue entry x channels x N in {0,1,5,6,100,777,3000} x sample seed x mutation {valid, truncated at a generated cut, one byte altered, header bytes overwritten} x leading junk {1..1001} x trailing junk {0..500}; "
+            "read: the same byte string opened through virtual I/O, sf_open, sf_open_fd close_desc 0 and 1, a descriptor positioned at offset k of a file with random leading and trailing bytes (WAV/AIFF/AU, valid inputs) and a non-seekable pipe (WAV/AIFF/AU sample-granular encodings, valid inputs); oracle: same NULL-vs-handle outcome and sf_error number (path/fd/vio), same SF_INFO (pipe: frames and seekable exempt), same first 2000 frames via sf_readf_int, same strings, sf_close 0; "
+            "write: the same frames written through virtual I/O, sf_open, sf_open_fd 0/1 and a descriptor positioned at offset k<=L of an existing L-byte container file; oracle: bytes identical (SVX NAME chunk and MPC2K name field masked), the L existing bytes intact and the sound file appended after them; "
+            "both: fcntl on the handed-in descriptor after sf_close says closed iff close_desc, and the set of open descriptors of the process is unchanged; non-trivial = N >= 1 and at least three routes compared; distinct = hash of the case",
+    "assumptions": BASE_ASSUME + ["SD2 is excluded (path-only container with a resource fork)",
+                                  "pipe inputs are limited to 60000 bytes so that the whole file fits the pipe buffer and no writer thread is needed",
+                                  "the open-descriptor census reads /proc/self/fd"],
+    "stages": [
+        {"bin": "c14", "quick": {"cases": 1500, "workers": 16, "budget": 200}, "thorough": {"cases": 30000, "workers": 16, "budget": 1500}},
+    ],
+}
